@@ -33,7 +33,7 @@ def owns(rule, flags):
 
 def make_case(rng, i):
     return F.basic_case(rng, PROFILE, hist=(5, 40), drivers=("sync", "inloop"), p_unknown=0.1,
-                        async_modes=("none", "none", "none", "all", "half", "one"))
+                        async_modes=("none", "none", "none", "all", "half", "one"), p_style=0.3)
 
 
 def signature(case, ck, log, fault):
